@@ -1,1 +1,15 @@
-//! TODO
+//! O(|q||k|) edit distance over Unicode scalar values.
+pub fn distance(q: &str, k: &str) -> usize {
+    let q: Vec<char> = q.chars().collect();
+    let k: Vec<char> = k.chars().collect();
+    let mut prev: Vec<usize> = (0..=q.len()).collect();
+    for (i, kc) in k.iter().enumerate() {
+        let mut cur = vec![i + 1];
+        for (j, qc) in q.iter().enumerate() {
+            let sub = prev[j] + if kc == qc { 0 } else { 1 };
+            cur.push(sub.min(prev[j + 1] + 1).min(cur[j] + 1));
+        }
+        prev = cur;
+    }
+    prev[q.len()]
+}
